@@ -42,7 +42,28 @@ def verify_contract(verifier, cls, **kw):
 
 
 def discharge_all(obs, quick_ms=300, cli_timeout_s=20, all_solvers=False, seed=0, workdir=None, threads=3,
-                  _nodedupe=False, cheap_keys=()):
+                  _nodedupe=False, cheap_keys=(), chunk=60):
+    """Obligations are processed in chunks; once 8 obligations of the function are open (failed or undecided) the
+    remaining ones are not attempted (they are reported undecided): a function that already fails does not
+    deserve minutes of solver time."""
+    if len(obs) > chunk and not _nodedupe:
+        open_ = 0
+        for k in range(0, len(obs), chunk):
+            part = obs[k:k + chunk]
+            if open_ >= 8:
+                for ob in part:
+                    ob.result = solve.Result("unknown", "budget", 0.0, None,
+                                             detail="not attempted: 8 obligations of this function already open")
+                continue
+            _discharge_chunk(part, quick_ms, cli_timeout_s, all_solvers, seed, workdir, threads, _nodedupe, cheap_keys)
+            open_ += sum(1 for ob in part if ob.result.verdict != "unsat"
+                         and ob.oid.rsplit("#", 1)[0] not in cheap_keys)
+        return
+    _discharge_chunk(obs, quick_ms, cli_timeout_s, all_solvers, seed, workdir, threads, _nodedupe, cheap_keys)
+
+
+def _discharge_chunk(obs, quick_ms=300, cli_timeout_s=20, all_solvers=False, seed=0, workdir=None, threads=3,
+                     _nodedupe=False, cheap_keys=()):
     """Stage 1: in-process z3 with a short budget (sequential: z3py contexts are not thread safe).
     Stage 2: everything not proved goes to the command-line portfolio, several obligations at a time."""
     from concurrent.futures import ThreadPoolExecutor
@@ -77,9 +98,22 @@ def discharge_all(obs, quick_ms=300, cli_timeout_s=20, all_solvers=False, seed=0
         else:
             pending.append((ob, sliced, r))
 
+    notproved = [0]
+
     def work(item):
         ob, sliced, r0 = item
+        r = _work(item)
+        if r[1][0] != "unsat":
+            notproved[0] += 1
+        return r
+
+    def _work(item):
+        ob, sliced, r0 = item
         cli_t = cli_timeout_s
+        if notproved[0] >= 8:
+            # this function already has several open obligations: the remaining ones are left undecided
+            return ob, ("unknown", {"budget": solve.Result("unknown", "budget", 0.0,
+                                                           detail="not attempted: 8 obligations of this function already open")})
         if ob.oid.rsplit("#", 1)[0] in cheap_keys:
             cli_t = min(cli_timeout_s, 4)       # obligation of a recorded known finding: expected not to be provable
         res = {}
@@ -141,8 +175,8 @@ def discharge_all(obs, quick_ms=300, cli_timeout_s=20, all_solvers=False, seed=0
         else:
             redo.append(ob)       # anything else is decided on this obligation's own full path condition
     if redo:
-        discharge_all(redo, quick_ms, cli_timeout_s, all_solvers, seed, workdir, threads, _nodedupe=True,
-                      cheap_keys=cheap_keys)
+        _discharge_chunk(redo, quick_ms, cli_timeout_s, all_solvers, seed, workdir, threads, _nodedupe=True,
+                         cheap_keys=cheap_keys)
     # models for failed obligations (in-process z3, bounded effort) -- used for replay only
     for ob in obs:
         if ob.result.verdict == "sat":
